@@ -280,3 +280,8 @@ Lemma void_ret_agree : forall x, void_ret_m x = void_ret_spec x.
 Proof. intros x. unfold void_ret_m, void_ret_spec. lia. Qed.
 Lemma make_pair_member_agree : forall w, make_pair_member_m w = make_pair_member_spec w.
 Proof. intros [[|]|]; reflexivity. Qed.
+
+Lemma tuple_structured_binding_refuted : tuple_structured_binding_m <> tuple_structured_binding_spec.
+Proof. discriminate. Qed.
+Lemma get_by_type_refuted : exists p, get_by_type_m p <> get_by_type_spec p.
+Proof. exists true. discriminate. Qed.
